@@ -74,6 +74,30 @@ def run(ctx):
                 sent = tplm.mutate_sentence(rng, sent)
             cases.append((gtext, tplm.sentence_text(sent).encode()))
             meta.append(("derived" if k < 2 else "near-match", rules, None))
+    # choices whose options share / almost share their first token: exercises CheckConflicts/stops and the commit rule
+    HEADS = [("kw", "a"), ("kw", "x"), ("tok", "IDENT"), ("tok", "INT"), ("op", "+", '"'), ("kw", "if")]
+    TAILS = [("tok", "INT"), ("kw", "b"), ("op", ",", '"'), ("tok", "IDENT"), ("?", ("tok", "INT")), ("true",)]
+    for _ in range(ctx.n(300, 10000)):
+        opts = []
+        for _ in range(2 + rng.below(2)):
+            k = rng.below(6)
+            if k == 0:
+                opts.append(("?", rng.choice(HEADS)))
+            elif k == 1:
+                opts.append(rng.choice(HEADS))
+            else:
+                opts.append(("seq", [rng.choice(HEADS), rng.choice(TAILS)] + ([rng.choice(TAILS)] if rng.below(3) == 0 else [])))
+        body = ("alt", opts)
+        if rng.below(3) == 0:
+            body = ("seq", [body, rng.choice(TAILS)])
+        rules = [("doc", body)]
+        gtext = tplm.grammar_text(rules).encode()
+        for _ in range(3):
+            sent = tplm.derive(rng, ("ref", "doc"), rules)
+            if rng.below(3) > 0:
+                sent = tplm.mutate_sentence(rng, sent)
+            cases.append((gtext, tplm.sentence_text(sent).encode()))
+            meta.append(("choice-commit", rules, None))
     res = tplm.run_pipeline(ctx, cases)
     if res is None:
         return
@@ -115,7 +139,9 @@ def run(ctx):
               rule="%d README/commit-rule examples with hand-written expectations; seeded grammars of 1-4 rules (expression depth<=4: "
                    "sequence, choice, * + ?, %%, ++, token classes, keywords, operator literals in \"\" and '' form, SPACE, \"\", "
                    "references mostly to later rules, 1/6 arbitrary) x 4 inputs each: 2 derived from the grammar, 2 mutated into "
-                   "near-matches (token dropped/duplicated/swapped/replaced/inserted, adjacency toggled, comment inserted). "
+                   "near-matches (token dropped/duplicated/swapped/replaced/inserted, adjacency toggled, comment inserted); "
+                   "plus a choice-commit family: 2-3 options starting with equal / overlapping / disjoint first tokens "
+                   "(keyword vs keyword, keyword vs IDENT class, optional heads) x 3 inputs. "
                    "Not run on the implementation: %d pairs on which the model exceeds its fuel bound (nullable repetition / left "
                    "recursion, see C28). Reference oracle evaluated on %d pairs. non-trivial = distinct pair that compiles, with a "
                    "grammar of >= 6 tokens." % (len(README), nfuel, nref),
